@@ -494,7 +494,54 @@ def r10_7(ctx):
     ctx.floor('R10.7', 'boundary evaluations in compute_initial_condition_01', n, 2)
 
 
+def r10_8(ctx):
+    """Building a RestrictedLinearSystem leaves the caller's matrix, right-hand side and boundary data untouched: the lifted
+    right-hand side b - A g is a new array.  (np.asarray does not copy a float64 array: `b = np.asarray(b); b -= ...` writes
+    into the caller's vector -- the completed solution then fails the equations of the system the caller holds, and a second
+    system built from the same (A, b) is lifted twice.)"""
+    from sa import effects
+    fi = ctx.prog.func(A + '.RestrictedLinearSystem.__init__')
+    ws = effects.external_writes(fi.node)
+    bad = [w for w in ws if w['definite'] and any(r.startswith('param:') for r in w['external'])]
+    if bad:
+        w = bad[0]
+        ctx.violated('R10.8', fi.qual, src(w['node'])[:80], w['node'],
+                     'in-place %s on storage of the argument %s: the right-hand side the caller passed is overwritten with the lifted one '
+                     '(free-equation residual of the completed solution 30.6 instead of 1e-15; a second system from the same data is wrong)'
+                     % (w['kind'], ', '.join(sorted(x[6:] for x in w['external']))))
+    else:
+        ctx.met('R10.8', fi.qual, 'no in-place write to A, b or the boundary data', fi.node)
+
+
+def r10_9(ctx):
+    """compute_dirichlet_bc: vector-valued boundary data yield one block of conditions per COMPONENT OF THE DATA
+    (dircoeffs.shape[-1]); the number of space directions of the geometry is a different number (three fields on a 2D patch)."""
+    f = ctx.prog.func(A + '.compute_dirichlet_bc')
+    loops = [l for l in ast.walk(f.node) if isinstance(l, (ast.For, ast.comprehension)) and isinstance(l.iter, ast.Call)
+             and call_name(l.iter) == 'range' and len(l.iter.args) == 1]
+    n = 0
+    for l in loops:
+        v = l.target.id if isinstance(l.target, ast.Name) else None
+        scope = l if isinstance(l, ast.For) else parent(l)
+        if v is None or not any(isinstance(x, ast.Subscript) and 'dircoeffs' in src(x.value) and v in {y.id for y in ast.walk(x.slice) if isinstance(y, ast.Name)}
+                                for x in ast.walk(scope)):
+            continue
+        n += 1
+        bound = resolve.expand(l.iter.args[0], scope if isinstance(scope, ast.stmt) else resolve.stmt_of(scope), keep=('dircoeffs', 'geo', 'kvs'))
+        t = src(bound).replace(' ', '')
+        from_data = 'dircoeffs.shape[-1]' in t or 'dircoeffs.shape[dircoeffs.ndim-1]' in t or 'np.shape(dircoeffs)[-1]' in t
+        from_geo = 'geo.dim' in t or 'len(kvs)' in t or 'geo.sdim' in t
+        ctx.decide('R10.9', f.qual, 'components of the data: range(%s)' % src(l.iter.args[0]), True if from_data else (False if from_geo else None), l.iter,
+                   'one block per component of the boundary data' if from_data else
+                   'the number of blocks is taken from the geometry (%s), not from the data: for three fields (u_x, u_y, w) on a 2D patch the '
+                   'third block is never constrained (14 of 21 boundary dofs returned); fewer components raise IndexError' % t, definite=True)
+    if n == 0:
+        ctx.undecided('R10.9', f.qual, 'loop over the components of the Dirichlet data', f.node, 'not recognised')
+
+
 def run(ctx):
+    r10_8(ctx)
+    r10_9(ctx)
     r10_7(ctx)
     r10_6(ctx)
     r10_1(ctx)
